@@ -52,6 +52,10 @@ static void serial_simulation_init(void)
 
 		common_msg_process(lp, msg);
 
+		// an LP can be complete right after its initialization, as in the parallel runtime
+		if(global_config.committed(i, lp->state_pointer))
+			lp->termination_t = 0;
+
 		msg_allocator_free(heap_extract(queue, msg_is_before));
 	}
 	lp_initialized_set();
@@ -85,9 +89,11 @@ static void serial_simulation_fini(void)
 static int serial_simulation_run(void)
 {
 	timer_uint last_vt = timer_new();
-	lp_id_t to_terminate = global_config.lps;
+	lp_id_t to_terminate = 0;
+	for(lp_id_t i = 0; i < global_config.lps; ++i)
+		to_terminate += lps[i].termination_t < 0;
 
-	while(likely(!heap_is_empty(queue))) {
+	while(likely(to_terminate && !heap_is_empty(queue))) {
 		const struct lp_msg *msg = heap_min(queue);
 		struct lp_ctx *lp = &lps[msg->dest];
 		current_lp = lp;
